@@ -1708,6 +1708,18 @@ def oracle(ctx, c: Case):
                  replay_dict(c, {"shared_paths": describe(shared.values(), c)}, {"shared_paths": describe(exp_ids.values(), c)}),
                  {**sig_base, "kind": "missed-share", "cause": cause})
         failed = True
+    # no aliasing inside the result: a new mutable container occurs at one place only (otherwise mutating one
+    # part of the result would silently change another)
+    seen_fresh = {}
+    for pth, o in walk(c.res):
+        if is_mutable(o) and id(o) not in in_ids:
+            if id(o) in seen_fresh and seen_fresh[id(o)] != pth and not failed:
+                ctx.fail(f"{c.side}: the result of {c.call_src} holds the same new {type(o).__name__} at {seen_fresh[id(o)]} and {pth}",
+                         replay_dict(c, "new container aliased inside the result", "each new container occurs once"),
+                         {**sig_base, "kind": "result-internal-alias"})
+                failed = True
+                break
+            seen_fresh.setdefault(id(o), pth)
     # two calls: their results may have nothing mutable in common but objects of the argument (a shared default
     # object or a cached container would be hidden sharing between results)
     if c.res2 is not None:
